@@ -193,10 +193,12 @@ def build_leaf(spec, pscale=0.0):
                                      dim=shape[0], cond_dim=None if cond is None else cond[0],
                                      nn_width=int(spec.get("width", 4)), nn_depth=int(spec.get("depth", 1)))
     elif k == "BNAF":
+        act = {None: None, "tanh": B.Tanh(), "softplus_fn": jax.nn.softplus}[spec.get("activation")]
         obj = B.BlockAutoregressiveNetwork(_key(spec, 1), dim=shape[0], cond_dim=None if cond is None else cond[0],
                                            depth=int(spec.get("depth", 1)), block_dim=int(spec.get("block_dim", 2)),
-                                           inverter=tight_inverter())
-        kw = dict(numinv=True)
+                                           activation=act, inverter=tight_inverter())
+        # a non-onto activation (tanh) has no inverse on all of R^n: the bisection would not terminate, never call it
+        kw = dict(numinv=True, invertible=act is None)
     else:
         raise ValueError(f"unknown leaf kind {k}")
     if k == "Planar" and cond is not None and "ps" not in spec:
